@@ -42,6 +42,21 @@ impl StateLayout for StateV01 {
     }
 }
 
+impl StateV01 {
+    /// The declared `predicateType` must name the format of the predicate
+    /// that is actually contained.
+    pub(super) fn check_predicate_type(self) -> Result<Self> {
+        let contained = self.predicate.clone().into_trait().version();
+        if self.predicate_type != contained {
+            return Err(Error::AttestationFormatDismatch(
+                String::from(self.predicate_type),
+                String::from(contained),
+            ));
+        }
+        Ok(self)
+    }
+}
+
 impl FromMerge for StateV01 {
     fn merge(
         meta: LinkMetadata,
